@@ -85,7 +85,7 @@ def params(rng):
 
 
 def batch(rng, F, loc, spread, n=None):
-    n = n or rng.choice([8, 12, 20, 30, 45, 60])
+    n = n or rng.choice([8, 9, 12, 15, 20, 25, 30, 45, 49, 60, 81])
     return [[loc[f] + rng.randint(0, spread) for f in range(F)] for _ in range(n)]
 
 
